@@ -123,6 +123,15 @@ def run(ctx):
     # the one degenerate table {0}: a regression scenario of its own (runs last, in its own process)
     zero_only = [{"id": "zeroonly", "kind": "session", "seed": ZERO_ONLY_SEED, "seedkind": "zeroonly", "biased": False, "smode": 2, "cmode": 0,
                   "writes": [{"side": "s", "n": 0}, {"side": "s", "n": 1}]}]
+    # a sampled target of 0 means "end the burst on a segment boundary", not "no padding": tables that contain 0, in the modes
+    # that pad once per burst, with enough writes for 0 to be drawn (and the {0} table, where it always is)
+    for k, mode in enumerate((0, 1)):
+        scen.append({"id": "zeroonly-m%d" % mode, "kind": "session", "seed": ZERO_ONLY_SEED, "seedkind": "zeroonly", "biased": False, "smode": mode, "cmode": mode,
+                     "writes": [{"side": sd, "n": n} for n in (1, 100, 1427, 1428, 2855) for sd in "sc"]})
+    for k, seed in enumerate(find_seeds(ctx, binary, "zerosmall", 3 if quick else 20, (ctx.seed % 1000) * 1000 + 250)):
+        for mode in (0, 1):
+            scen.append({"id": "zerosmall%d-m%d" % (k, mode), "kind": "session", "seed": seed, "seedkind": "zero", "biased": False, "smode": mode, "cmode": mode,
+                         "writes": [{"side": "sc"[j % 2], "n": [1, 100, 1427, 1428, 50, 2855, 700][j % 7]} for j in range(60 if quick else 120)]})
     for i in range(6 if quick else 40):
         scen.append({"id": "seedinject%d" % i, "kind": "seedinject", "seed": find_seeds(ctx, binary, "any", 1, 777 + i * 13 + ctx.seed)[0], "biased": bool(i % 2),
                      "smode": i % 3, "cmode": 0, "writes": [{"side": "s", "n": n} for n in (1, 1427, 1428, 100, 2855)]})
